@@ -59,14 +59,41 @@ Proof. repeat split; [apply stmt_else_ind | apply block_else_ind | apply stmts_e
 End SbsIndElse.
 
 (* ---------- the lattice and abstract states ---------- *)
-Lemma lle_refl : forall l, lle l l = true. Proof. destruct l; reflexivity. Qed.
+Lemma mem_s_In : forall x l, mem_s x l = true <-> In x l.
+Proof.
+  intros x l. unfold mem_s. rewrite existsb_exists. split.
+  - intros [y [H1 H2]]. apply String.eqb_eq in H2. subst. exact H1.
+  - intros H. exists x. split; auto. apply String.eqb_refl.
+Qed.
+
+Lemma mem_s_false : forall x l, mem_s x l = false -> ~ In x l.
+Proof. intros x l H C. apply mem_s_In in C. congruence. Qed.
+
+Lemma incl_b_spec : forall g f, incl_b g f = true <-> (forall x, In x g -> In x f).
+Proof.
+  intros g f. unfold incl_b. rewrite forallb_forall. split; intros H x Hx.
+  - apply mem_s_In. auto.
+  - apply mem_s_In. auto.
+Qed.
+
+Lemma lle_refl : forall l, lle l l = true.
+Proof. destruct l; simpl; auto. apply incl_b_spec. auto. Qed.
 Lemma lle_trans : forall a b c, lle a b = true -> lle b c = true -> lle a c = true.
-Proof. destruct a, b, c; simpl; congruence. Qed.
+Proof.
+  destruct a, b, c; simpl; intros H1 H2; try congruence; auto.
+  rewrite incl_b_spec in *. auto.
+Qed.
 Lemma lle_any : forall l, lle l LAny = true. Proof. destruct l; reflexivity. Qed.
 Lemma lmax_l : forall a b, lle a (lmax a b) = true.
-Proof. destruct a, b; reflexivity. Qed.
+Proof.
+  destruct a, b; simpl; auto; apply incl_b_spec; auto.
+  intros x Hx. apply filter_In in Hx. apply Hx.
+Qed.
 Lemma lmax_r : forall a b, lle b (lmax a b) = true.
-Proof. destruct a, b; reflexivity. Qed.
+Proof.
+  destruct a, b; simpl; auto; apply incl_b_spec; auto.
+  intros x Hx. apply filter_In in Hx. destruct Hx as [_ Hx]. apply mem_s_In. exact Hx.
+Qed.
 
 Definition ale_pt (a b : astate) : Prop := forall x, lle (aget x a) (aget x b) = true.
 
@@ -118,6 +145,18 @@ Proof.
   destruct (String.eqb x z) eqn:E2; simpl; rewrite E2; auto.
 Qed.
 
+Lemma aget_amap : forall g y a, aget y (amap g a) = g (aget y a) \/ aget y (amap g a) = LAny.
+Proof.
+  intros g y a. induction a as [|[z k] r IH]; simpl; auto.
+  destruct (String.eqb y z); auto.
+Qed.
+
+Lemma aget_abot : forall ns y, aget y (abot ns) = LClean \/ aget y (abot ns) = LAny.
+Proof.
+  intros ns y. unfold abot. induction ns as [|z r IH]; simpl; auto.
+  destruct (String.eqb y z); auto.
+Qed.
+
 Lemma ai_loop_spec : forall body n sg sginv,
   ai_loop body n sg = Some sginv ->
   ale_pt sg sginv /\ exists sg', body sginv = Some sg' /\ ale sg' sginv = true.
@@ -150,6 +189,14 @@ Proof.
   - contradiction.
   - destruct (String.eqb x y) eqn:E; eauto.
     destruct H as [H|H]; auto. subst. rewrite String.eqb_refl in E. discriminate.
+Qed.
+
+Lemma frame_get_in_dom : forall x (f : frame) tv, frame_get x f = Some tv -> In x (map fst f).
+Proof.
+  intros x f. induction f as [|[y w] r IH]; simpl; intros tv H; try discriminate.
+  destruct (String.eqb x y) eqn:E.
+  - apply String.eqb_eq in E. auto.
+  - right. eapply IH; eauto.
 Qed.
 
 Lemma frame_get_type : forall x (f1 f2 : frame), fsig f1 = fsig f2 ->
@@ -188,19 +235,31 @@ Proof.
   pose proof (frame_set_spec x v f) as S. rewrite G in S. rewrite S. rewrite IH; auto.
 Qed.
 
-Lemma frames_set_keeps_none : forall x v fs fs' y,
-  frames_set x v fs = Some fs' -> frames_get y fs = None -> frames_get y fs' = None.
+Definition shape (fs : list frame) : list (list string) := map (map fst) fs.
+
+(* a successful assignment to a local changes that local only, and no frame's names *)
+Lemma frames_set_other : forall x v fs fs',
+  frames_set x v fs = Some fs' ->
+  shape fs' = shape fs /\ forall y, String.eqb y x = false -> frames_get y fs' = frames_get y fs.
 Proof.
-  intros x v fs. induction fs as [|f r IH]; simpl; intros fs' y H G; try discriminate.
-  destruct (frame_get y f) as [tv|] eqn:Gy; try discriminate.
+  intros x v fs. induction fs as [|f r IH]; simpl; intros fs' H; try discriminate.
   pose proof (frame_set_spec x v f) as S.
   destruct (frame_get x f) as [[t w]|] eqn:Gx.
   - destruct S as [f' [S1 [S2 [S3 [S4 S5]]]]]. rewrite S1 in H. inversion H; subst. simpl.
-    destruct (String.eqb y x) eqn:E.
-    + apply String.eqb_eq in E. subst. rewrite Gx in Gy. discriminate.
-    + rewrite (S5 y E), Gy. exact G.
+    split. { rewrite S3. reflexivity. }
+    intros y E. rewrite (S5 y E). reflexivity.
   - rewrite S in H. destruct (frames_set x v r) as [r'|] eqn:R; try discriminate.
-    inversion H; subst. simpl. rewrite Gy. eapply IH; eauto.
+    inversion H; subst. simpl. destruct (IH r' eq_refl) as [I1 I2]. split. { rewrite I1. reflexivity. }
+    intros y E. rewrite (I2 y E). reflexivity.
+Qed.
+
+Lemma frames_set_keeps_none : forall x v fs fs' y,
+  frames_set x v fs = Some fs' -> frames_get y fs = None -> frames_get y fs' = None.
+Proof.
+  intros x v fs fs' y H G. destruct (frames_set_other _ _ _ _ H) as [_ O].
+  destruct (String.eqb y x) eqn:E.
+  - apply String.eqb_eq in E. subst. rewrite (frames_set_none x v fs G) in H. discriminate.
+  - rewrite (O y E). exact G.
 Qed.
 
 Lemma frame_get_app_none : forall x (f g : frame),
@@ -210,18 +269,71 @@ Proof.
   destruct (String.eqb x y); auto.
 Qed.
 
+Lemma frame_get_app_other : forall y x tv (f : frame),
+  String.eqb y x = false -> frame_get y (f ++ [(x, tv)]) = frame_get y f.
+Proof.
+  intros y x tv f E. induction f as [|[z w] r IH]; simpl.
+  - rewrite E. reflexivity.
+  - destruct (String.eqb y z); auto.
+Qed.
+
+Lemma frame_get_app_new : forall x tv (f : frame),
+  frame_get x f = None -> frame_get x (f ++ [(x, tv)]) = Some tv.
+Proof.
+  intros x tv f. induction f as [|[z w] r IH]; simpl; intros H.
+  - rewrite String.eqb_refl. reflexivity.
+  - destruct (String.eqb x z); try discriminate. auto.
+Qed.
+
 (* ---------- the relation between the two runs ---------- *)
-Definition vrel (l : lvl) (o1 o2 : option (string * value)) : Prop :=
+(* a block-local flag that currently holds a false value *)
+Definition flag_false (fs : list frame) (f : string) : Prop :=
+  exists t v, frames_get f fs = Some (t, v) /\ truth v = ROk false.
+
+Definition vrel (l : lvl) (fs : list frame) (o1 o2 : option (string * value)) : Prop :=
   match l with
   | LClean => exists t, o1 = Some (t, VVec []) /\ o2 = Some (t, VVec [])
   | LSet => o1 = o2
-  | LAny => True
+  | LGuard F => (exists f, In f F /\ flag_false fs f) -> o1 = o2
   end.
 
-Lemma vrel_mono : forall l l' o1 o2, lle l l' = true -> vrel l o1 o2 -> vrel l' o1 o2.
+Lemma vrel_any : forall fs o1 o2, vrel LAny fs o1 o2.
+Proof. intros fs o1 o2 [f [[] _]]. Qed.
+
+Lemma vrel_mono : forall l l' fs o1 o2, lle l l' = true -> vrel l fs o1 o2 -> vrel l' fs o1 o2.
 Proof.
-  intros l l' o1 o2 L V. destruct l, l'; simpl in *; try discriminate; auto.
-  destruct V as [t [A B]]. congruence.
+  intros l l' fs o1 o2 L V. destruct l, l'; simpl in *; try discriminate; auto.
+  - destruct V as [t [A B]]. congruence.
+  - destruct V as [t [A B]]. intros _. congruence.
+  - rewrite incl_b_spec in L. intros [f [Hf Ff]]. apply V. exists f. auto.
+Qed.
+
+(* the frames change from fs to fs' in a way that keeps every flag outside xs *)
+Lemma vrel_forget : forall xs l fs fs' o1 o2,
+  (forall f, ~ In f xs -> flag_false fs' f -> flag_false fs f) ->
+  vrel l fs o1 o2 -> vrel (lforget_all xs l) fs' o1 o2.
+Proof.
+  intros xs l fs fs' o1 o2 K V. destruct l; simpl in *; auto.
+  intros [f [Hf Ff]]. apply filter_In in Hf. destruct Hf as [Hf1 Hf2].
+  apply negb_true_iff in Hf2. apply mem_s_false in Hf2.
+  apply V. exists f. split; auto.
+Qed.
+
+Lemma vrel_guard : forall x l fs o1 o2,
+  ~ flag_false fs x -> vrel l fs o1 o2 -> vrel (lguard x l) fs o1 o2.
+Proof.
+  intros x l fs o1 o2 N V. destruct l; simpl in *; auto.
+  intros [f [[Hf|Hf] Ff]].
+  - subst. contradiction.
+  - apply V. exists f. auto.
+Qed.
+
+Lemma vrel_false : forall x l fs o1 o2,
+  flag_false fs x -> vrel l fs o1 o2 -> vrel (lfalse x l) fs o1 o2.
+Proof.
+  intros x l fs o1 o2 F V. destruct l; simpl in *; auto.
+  destruct (mem_s x flags) eqn:M; simpl; auto.
+  apply V. exists x. split; auto. apply mem_s_In. exact M.
 Qed.
 
 Definition res_rel {A} (R : A -> A -> Prop) (r1 r2 : res A) : Prop :=
@@ -242,10 +354,6 @@ Lemma res_rel_mono : forall {A} (R R' : A -> A -> Prop) (r1 r2 : res A),
   res_rel R r1 r2 -> (forall a b, R a b -> R' a b) -> res_rel R' r1 r2.
 Proof. intros A R R' r1 r2 H K. destruct r1, r2; simpl in *; auto. Qed.
 
-Lemma res_rel_refl_eq : forall {A} (R : A -> A -> Prop) (r : res A),
-  (forall a, r = ROk a -> R a a) -> res_rel R r r.
-Proof. intros A R r H. destruct r; simpl; auto. Qed.
-
 Section Sound.
 Variable ns : list string.
 Variable msig : list (string * string).   (* declared (name, type) of the members *)
@@ -261,15 +369,11 @@ Record Rst (sg : astate) (st1 st2 : state) : Prop := {
   R_sig : fsig (members st1) = fsig (members st2);
   R_msig : fsig (members st1) = msig;
   R_dom : map fst (members st1) = ns;
-  R_mem : forall x, vrel (aget x sg) (frame_get x (members st1)) (frame_get x (members st2))
+  R_mem : forall x, vrel (aget x sg) (frames st1) (frame_get x (members st1)) (frame_get x (members st2))
 }.
 
 Lemma is_mem_true : forall x, is_mem ns x = true <-> In x ns.
-Proof.
-  intros x. unfold is_mem. rewrite existsb_exists. split.
-  - intros [y [H1 H2]]. apply String.eqb_eq in H2. subst. exact H1.
-  - intros H. exists x. split; auto. apply String.eqb_refl.
-Qed.
+Proof. intros x. apply mem_s_In. Qed.
 
 Lemma is_mem_false : forall x, is_mem ns x = false -> ~ In x ns.
 Proof. intros x H C. apply is_mem_true in C. congruence. Qed.
@@ -285,6 +389,21 @@ Proof.
   intros x. eapply vrel_mono; [apply L | apply R_mem0].
 Qed.
 
+(* change of the abstract state by a level-wise function, and of the frames *)
+Lemma Rst_amap : forall g sg st1 st2 st1' st2',
+  Rst sg st1 st2 ->
+  frames st1' = frames st2' -> rows st1' = rows st2' -> fresh (frames st1') ->
+  members st1' = members st1 -> members st2' = members st2 ->
+  (forall l o1 o2, vrel l (frames st1) o1 o2 -> vrel (g l) (frames st1') o1 o2) ->
+  Rst (amap g sg) st1' st2'.
+Proof.
+  intros g sg st1 st2 st1' st2' H F R Fr M1 M2 K. destruct H.
+  constructor; auto; try (rewrite M1; auto; fail); try (rewrite M1, M2; auto; fail).
+  intros x. rewrite M1, M2. destruct (aget_amap g x sg) as [E|E]; rewrite E.
+  - apply K. apply R_mem0.
+  - apply vrel_any.
+Qed.
+
 Lemma lookup_nonmember : forall sg st1 st2 x, Rst sg st1 st2 -> is_mem ns x = false ->
   lookup x st1 = lookup x st2.
 Proof.
@@ -294,6 +413,14 @@ Proof.
   rewrite !frame_get_none; auto.
   - rewrite (Rst_dom2 _ _ _ H). exact M.
   - rewrite (R_dom _ _ _ H). exact M.
+Qed.
+
+Lemma lookup_nonmember_frames : forall sg st1 st2 x, Rst sg st1 st2 -> is_mem ns x = false ->
+  lookup x st1 = frames_get x (frames st1).
+Proof.
+  intros sg st1 st2 x H M. unfold lookup.
+  destruct (frames_get x (frames st1)); auto.
+  apply is_mem_false in M. apply frame_get_none. rewrite (R_dom _ _ _ H). exact M.
 Qed.
 
 Lemma lookup_member : forall sg st1 st2 x, Rst sg st1 st2 -> is_mem ns x = true ->
@@ -350,15 +477,20 @@ Proof. intros sg st1 st2 e H. apply (proj1 (eval_same _ _ _ H)). Qed.
 (* assignment *)
 Lemma assign_nonmember : forall sg st1 st2 x v, Rst sg st1 st2 -> is_mem ns x = false ->
   match assign x v st1, assign x v st2 with
-  | Some a, Some b => Rst sg a b
+  | Some a, Some b => Rst (aforget x sg) a b /\ shape (frames a) = shape (frames st1)
   | None, None => True
   | _, _ => False
   end.
 Proof.
   intros sg st1 st2 x v H M. unfold assign. rewrite <- (R_frames _ _ _ H).
   destruct (frames_set x v (frames st1)) as [fs|] eqn:F.
-  - destruct H. constructor; simpl; auto.
-    intros y My. eapply frames_set_keeps_none; eauto.
+  - destruct (frames_set_other _ _ _ _ F) as [Sh O]. split; auto.
+    eapply Rst_amap; eauto; simpl; auto.
+    + apply (R_rows _ _ _ H).
+    + intros y My. eapply frames_set_keeps_none; eauto. apply (R_fresh _ _ _ H y My).
+    + intros l o1 o2. apply vrel_forget. intros f Nf [t [w [G T]]].
+      exists t, w. split; auto. rewrite <- G. symmetry. apply O.
+      destruct (String.eqb f x) eqn:E; auto. apply String.eqb_eq in E. subst. exfalso. apply Nf. simpl. auto.
   - apply is_mem_false in M.
     pose proof (frame_set_spec x v (members st1)) as S1.
     pose proof (frame_set_spec x v (members st2)) as S2.
@@ -368,8 +500,9 @@ Proof.
 Qed.
 
 Lemma assign_member : forall sg st1 st2 x v l, Rst sg st1 st2 -> is_mem ns x = true ->
-  (forall t, vrel l (Some (t, v)) (Some (t, v))) ->
-  exists a b, assign x v st1 = Some a /\ assign x v st2 = Some b /\ Rst (aset x l sg) a b.
+  (forall t fs, vrel l fs (Some (t, v)) (Some (t, v))) ->
+  exists a b, assign x v st1 = Some a /\ assign x v st2 = Some b /\ Rst (aset x l sg) a b /\
+              frames a = frames st1.
 Proof.
   intros sg st1 st2 x v l H M V. unfold assign. rewrite <- (R_frames _ _ _ H).
   rewrite (frames_set_none x v _ (R_fresh _ _ _ H x M)).
@@ -381,62 +514,120 @@ Proof.
   destruct (frame_get_some x (members st2)) as [[t2 w2] G2]. { rewrite (Rst_dom2 _ _ _ H). exact M. }
   rewrite G1 in S1, T. rewrite G2 in S2, T. simpl in T. inversion T; subst t2.
   destruct S1 as [m1 [A1 [A2 [A3 [A4 A5]]]]]. destruct S2 as [m2 [B1 [B2 [B3 [B4 B5]]]]].
-  rewrite A1, B1. do 2 eexists. split; [reflexivity|]. split; [reflexivity|].
+  rewrite A1, B1. do 2 eexists. split; [reflexivity|]. split; [reflexivity|]. split; [|reflexivity].
   destruct H. constructor; simpl; auto.
   - congruence.
   - congruence.
   - congruence.
   - intros y. destruct (String.eqb y x) eqn:E.
     + apply String.eqb_eq in E. subst y. rewrite A4, B4.
-      destruct (aget_aset_same x l sg) as [K|K]; rewrite K; [apply V | exact I].
+      destruct (aget_aset_same x l sg) as [K|K]; rewrite K; [apply V | apply vrel_any].
     + rewrite (A5 y E), (B5 y E). rewrite aget_aset_other; auto. rewrite String.eqb_sym. exact E.
 Qed.
-
-Lemma vrel_set_same : forall o, vrel LSet o o. Proof. reflexivity. Qed.
 
 (* assignment to a name the analysis treats with `awrite` *)
 Lemma assign_write : forall sg st1 st2 x v, Rst sg st1 st2 ->
   match assign x v st1, assign x v st2 with
-  | Some a, Some b => Rst (awrite ns x sg) a b
+  | Some a, Some b => Rst (awrite ns x sg) a b /\ shape (frames a) = shape (frames st1)
   | None, None => True
   | _, _ => False
   end.
 Proof.
   intros sg st1 st2 x v H. unfold awrite. destruct (is_mem ns x) eqn:M.
-  - destruct (assign_member sg st1 st2 x v LSet H M) as [a [b [A [B C]]]]. { intros; reflexivity. }
-    rewrite A, B. exact C.
+  - destruct (assign_member sg st1 st2 x v LSet H M) as [a [b [A [B [C D]]]]]. { intros; reflexivity. }
+    rewrite A, B. split; auto. rewrite D. reflexivity.
   - apply assign_nonmember; auto.
 Qed.
 
 (* declarations *)
-Lemma declare_rel : forall sg st1 st2 x t v, Rst sg st1 st2 -> is_mem ns x = false ->
-  Rst sg (declare x t v st1) (declare x t v st2).
+Definition top_names (st : state) : list string := map fst (hd [] (frames st)).
+
+Lemma declare_frames : forall st x t v,
+  frames st <> [] ->
+  frames (declare x t v st) = (hd [] (frames st) ++ [(x, (t, v))]) :: tl (frames st).
+Proof. intros st x t v N. unfold declare. destruct (frames st); simpl; congruence. Qed.
+
+Lemma declare_rel : forall sg st1 st2 x t v (flag : bool), Rst sg st1 st2 -> is_mem ns x = false ->
+  frames st1 <> [] ->
+  (flag = true -> ~ In x (top_names st1) /\ truth v = ROk true) ->
+  Rst (if flag then amap (lguard x) (aforget x sg) else aforget x sg)
+      (declare x t v st1) (declare x t v st2).
 Proof.
-  intros sg st1 st2 x t v H M. unfold declare. rewrite <- (R_frames _ _ _ H).
-  pose proof (R_fresh _ _ _ H) as F.
-  destruct (frames st1) as [|f r] eqn:E; destruct H; constructor; simpl in *; auto.
-  - intros y My. simpl. destruct (String.eqb y x) eqn:E2; auto.
-    apply String.eqb_eq in E2. subst. congruence.
-  - intros y My. simpl. specialize (F y My). simpl in F.
-    destruct (frame_get y f) eqn:G; try discriminate.
-    rewrite frame_get_app_none; auto.
-    simpl. destruct (String.eqb y x) eqn:E2; auto.
-    apply String.eqb_eq in E2. subst. congruence.
+  intros sg st1 st2 x t v flag H M N FL.
+  assert (N2 : frames st2 <> []). { rewrite <- (R_frames _ _ _ H). exact N. }
+  assert (Base : Rst (aforget x sg) (declare x t v st1) (declare x t v st2)).
+  { eapply Rst_amap; eauto.
+    - rewrite !declare_frames; auto. rewrite (R_frames _ _ _ H). reflexivity.
+    - unfold declare. destruct (frames st1), (frames st2); simpl; apply (R_rows _ _ _ H).
+    - rewrite declare_frames; auto. intros y My. pose proof (R_fresh _ _ _ H y My) as F.
+      destruct (frames st1) as [|f r]; try congruence. simpl in *.
+      destruct (frame_get y f) eqn:G; try discriminate.
+      rewrite frame_get_app_none; auto.
+      simpl. destruct (String.eqb y x) eqn:E2; auto.
+      apply String.eqb_eq in E2. subst. congruence.
+    - unfold declare. destruct (frames st1); reflexivity.
+    - unfold declare. destruct (frames st2); reflexivity.
+    - intros l o1 o2. apply vrel_forget. intros f Nf [t0 [w [G T]]].
+      exists t0, w. split; auto. rewrite declare_frames in G; auto.
+      destruct (frames st1) as [|f0 r]; try congruence. simpl in *.
+      rewrite frame_get_app_other in G; auto.
+      destruct (String.eqb f x) eqn:E; auto. apply String.eqb_eq in E. subst. exfalso. apply Nf. simpl. auto. }
+  destruct flag; auto.
+  destruct (FL eq_refl) as [Nx Tv].
+  eapply Rst_amap; eauto; try apply Base.
+  intros l o1 o2. apply vrel_guard. intros [t0 [w [G T]]].
+  rewrite declare_frames in G; auto. unfold top_names in Nx.
+  destruct (frames st1) as [|f0 r]; try congruence. simpl in *.
+  rewrite frame_get_app_new in G by (apply frame_get_none; exact Nx).
+  inversion G; subst. congruence.
 Qed.
 
-Lemma run_decls_rel : forall ds sg st1 st2, forallb (decl_ok ns) ds = true -> Rst sg st1 st2 ->
-  res_rel (Rst sg) (run_decls ev ds st1) (run_decls ev ds st2).
+Lemma truth_true_flag : truth (init_value "bool" (VBool true)) = ROk true.
+Proof. reflexivity. Qed.
+
+Lemma run_decls_rel : forall ds seen sg sg' st1 st2,
+  ai_decls ns ds seen sg = Some sg' -> Rst sg st1 st2 -> frames st1 <> [] ->
+  (forall y, In y (top_names st1) -> In y seen) ->
+  res_rel (fun a b => Rst sg' a b /\
+                      shape (frames a) = (top_names st1 ++ map d_name ds) :: tl (shape (frames st1)))
+          (run_decls ev ds st1) (run_decls ev ds st2).
 Proof.
-  induction ds as [|d r IH]; intros sg st1 st2 D H; simpl.
-  - exact H.
-  - simpl in D. apply andb_true_iff in D. destruct D as [D1 D2].
-    unfold decl_ok in D1. apply andb_true_iff in D1. destruct D1 as [D0 D1].
-    apply negb_true_iff in D0.
-    destruct (d_init d) as [e|].
+  induction ds as [|d r IH]; intros seen sg sg' st1 st2 A H N S; simpl in *.
+  - inversion A; subst. split; auto. rewrite app_nil_r. unfold top_names, shape.
+    destruct (frames st1); simpl; congruence.
+  - destruct (decl_ok ns d) eqn:D; try discriminate.
+    unfold decl_ok in D. apply andb_true_iff in D. destruct D as [D0 D1]. apply negb_true_iff in D0.
+    assert (Step : forall v, (is_true_flag d = true -> v = init_value "bool" (VBool true)) ->
+              res_rel (fun a b => Rst sg' a b /\
+                         shape (frames a) = (top_names st1 ++ d_name d :: map d_name r) :: tl (shape (frames st1)))
+                      (run_decls ev r (declare (d_name d) (d_type d) v st1))
+                      (run_decls ev r (declare (d_name d) (d_type d) v st2))).
+    { intros v Hv.
+      assert (N' : frames (declare (d_name d) (d_type d) v st1) <> []).
+      { rewrite declare_frames; auto. discriminate. }
+      assert (TN : top_names (declare (d_name d) (d_type d) v st1) = top_names st1 ++ [d_name d]).
+      { unfold top_names. rewrite declare_frames; auto. simpl. rewrite map_app. reflexivity. }
+      assert (SH : tl (shape (frames (declare (d_name d) (d_type d) v st1))) = tl (shape (frames st1))).
+      { rewrite declare_frames; auto. unfold shape. destruct (frames st1); simpl; congruence. }
+      eapply res_rel_mono.
+      - eapply IH with (seen := d_name d :: seen); eauto.
+        + eapply (declare_rel sg st1 st2 (d_name d) (d_type d) v
+                              (is_true_flag d && negb (mem_s (d_name d) seen))); eauto.
+          intros FL. apply andb_true_iff in FL. destruct FL as [F1 F2]. apply negb_true_iff in F2.
+          split.
+          * intros C. apply S in C. apply mem_s_false in F2. contradiction.
+          * rewrite (Hv F1). reflexivity.
+        + intros y Hy. rewrite TN in Hy. apply in_app_or in Hy. destruct Hy as [Hy|[Hy|[]]]; simpl; auto.
+      - intros a b [K1 K2]. split; auto. rewrite K2, TN, SH, <- app_assoc. reflexivity. }
+    destruct (d_init d) as [e|] eqn:DI.
     + rewrite (eval_eq _ _ _ e H D1).
-      destruct (eval ev st2 e); simpl; auto.
-      apply IH; auto. apply declare_rel; auto.
-    + apply IH; auto. apply declare_rel; auto.
+      destruct (eval ev st2 e) as [v| |] eqn:EV; simpl; auto.
+      apply Step. intros TF. unfold is_true_flag in TF. rewrite DI in TF.
+      apply andb_true_iff in TF. destruct TF as [T1 T2]. apply String.eqb_eq in T1. rewrite T1.
+      destruct e; try discriminate. destruct b; try discriminate.
+      simpl in EV. inversion EV. reflexivity.
+    + apply Step. intros TF. unfold is_true_flag in TF. rewrite DI in TF.
+      rewrite andb_false_r in TF. discriminate.
 Qed.
 
 Lemma fill_row_eq : forall sg st1 st2, Rst sg st1 st2 -> fill_ok ns brs sg = true ->
@@ -453,22 +644,47 @@ Proof.
     simpl in V. rewrite V. reflexivity.
 Qed.
 
-Lemma push_frame_rel : forall sg st1 st2 pre, Rst sg st1 st2 ->
+Lemma push_frame_rel : forall sg st1 st2 (pre : frame), Rst sg st1 st2 ->
   (forall x, is_mem ns x = true -> frame_get x pre = None) ->
-  Rst sg {| frames := pre :: frames st1; members := members st1; rows := rows st1 |}
-         {| frames := pre :: frames st2; members := members st2; rows := rows st2 |}.
+  Rst (aforget_all (map fst pre) sg)
+      {| frames := pre :: frames st1; members := members st1; rows := rows st1 |}
+      {| frames := pre :: frames st2; members := members st2; rows := rows st2 |}.
 Proof.
-  intros sg st1 st2 pre H P. destruct H. constructor; simpl; auto.
-  - congruence.
-  - intros x M. simpl. rewrite (P x M). apply R_fresh0. exact M.
+  intros sg st1 st2 pre H P. eapply Rst_amap; eauto; simpl; auto.
+  - rewrite (R_frames _ _ _ H). reflexivity.
+  - apply (R_rows _ _ _ H).
+  - intros x M. simpl. rewrite (P x M). apply (R_fresh _ _ _ H). exact M.
+  - intros l o1 o2. apply vrel_forget. intros f Nf [t [w [G T]]].
+    exists t, w. split; auto. simpl in G. rewrite frame_get_none in G; auto.
 Qed.
 
-Lemma pop_frame_rel : forall sg st1 st2, Rst sg st1 st2 -> Rst sg (pop_frame st1) (pop_frame st2).
+Lemma pop_frame_rel : forall sg st1 st2 xs, Rst sg st1 st2 ->
+  (forall y, In y (top_names st1) -> In y xs) ->
+  Rst (aforget_all xs sg) (pop_frame st1) (pop_frame st2).
 Proof.
-  intros sg st1 st2 H. destruct H. unfold pop_frame. constructor; simpl; auto.
-  - congruence.
-  - intros x M. specialize (R_fresh0 x M). destruct (frames st1) as [|f r]; simpl in *; auto.
-    destruct (frame_get x f); try discriminate. exact R_fresh0.
+  intros sg st1 st2 xs H S. eapply Rst_amap; eauto; simpl; auto.
+  - rewrite (R_frames _ _ _ H). reflexivity.
+  - apply (R_rows _ _ _ H).
+  - intros x M. pose proof (R_fresh _ _ _ H x M) as F. destruct (frames st1) as [|f r]; simpl in *; auto.
+    destruct (frame_get x f); try discriminate. exact F.
+  - intros l o1 o2. apply vrel_forget. intros f Nf [t [w [G T]]].
+    exists t, w. split; auto. unfold top_names in S.
+    destruct (frames st1) as [|f0 r]; simpl in *; auto.
+    rewrite frame_get_none; auto.
+Qed.
+
+(* a false condition that is a plain local: the guards on it fire *)
+Lemma cond_false_rel : forall sg st1 st2 c v, Rst sg st1 st2 -> exp_ok ns c = true ->
+  eval ev st1 c = ROk v -> truth v = ROk false -> Rst (cond_false c sg) st1 st2.
+Proof.
+  intros sg st1 st2 c v H E EV T. destruct c; simpl; auto.
+  eapply Rst_amap; eauto; try apply H.
+  intros l o1 o2. apply vrel_false.
+  unfold exp_ok, ids_ok in E. simpl in E. apply andb_true_iff in E. destruct E as [E _].
+  apply negb_true_iff in E. simpl in EV.
+  rewrite (lookup_nonmember_frames _ _ _ x H E) in EV.
+  destruct (frames_get x (frames st1)) as [[t w]|] eqn:G; try discriminate.
+  exists t, w. split; auto. destruct w; try discriminate; inversion EV; subst; exact T.
 Qed.
 
 Ltac same_or_trivial :=
@@ -481,13 +697,14 @@ Ltac same_or_trivial :=
 
 Lemma ai_stmt_for : forall x e b sg,
   ai_stmt ns brs (SFor x e b) sg =
-  if negb (is_mem ns x) && exp_ok ns e then ai_loop (ai_block ns brs b) loop_fuel sg else None.
+  if negb (is_mem ns x) && exp_ok ns e then ai_loop (ai_block ns brs b [x]) loop_fuel sg else None.
 Proof. reflexivity. Qed.
 
 Lemma ai_stmt_if : forall c b els sg,
   ai_stmt ns brs (SIf c b els) sg =
   if exp_ok ns c then
-    match ai_block ns brs b sg, (match els with Some b2 => ai_block ns brs b2 sg | None => Some sg end) with
+    match ai_block ns brs b [] sg,
+          (match els with Some b2 => ai_block ns brs b2 [] (cond_false c sg) | None => Some (cond_false c sg) end) with
     | Some s1, Some s2 => Some (ajoin s1 s2)
     | _, _ => None
     end
@@ -507,8 +724,15 @@ Proof. reflexivity. Qed.
 Lemma exec_stmts_cons : forall s r st,
   exec_stmts brs ev (SCons s r) st = rbind (exec_stmt brs ev s st) (fun st' => exec_stmts brs ev r st').
 Proof. reflexivity. Qed.
-Lemma ai_block_blk : forall ds body sg,
-  ai_block ns brs (Blk ds body) sg = if forallb (decl_ok ns) ds then ai_stmts ns brs body sg else None.
+Lemma ai_block_blk : forall ds body pre sg,
+  ai_block ns brs (Blk ds body) pre sg =
+  match ai_decls ns ds pre (aforget_all pre sg) with
+  | Some sg1 => match ai_stmts ns brs body sg1 with
+                | Some sg2 => Some (aforget_all (pre ++ map d_name ds) sg2)
+                | None => None
+                end
+  | None => None
+  end.
 Proof. reflexivity. Qed.
 Lemma exec_block_blk : forall ds body pre st,
   exec_block brs ev (Blk ds body) pre st =
@@ -516,15 +740,31 @@ Lemma exec_block_blk : forall ds body pre st,
         (fun st1 => rbind (exec_stmts brs ev body st1) (fun st2 => ROk (pop_frame st2))).
 Proof. reflexivity. Qed.
 
+(* the relation carried through statements: the abstract state describes the two member states, and the
+   names bound in each frame are those at the start (needed to know what goes out of scope at block exit) *)
+Definition Rsh (sg : astate) (st0 : state) (a b : state) : Prop :=
+  Rst sg a b /\ shape (frames a) = shape (frames st0).
+
+Lemma Rsh_of_assign : forall sg st1 (oa ob : option state) (k : stuck),
+  match oa, ob with
+  | Some a, Some b => Rst sg a b /\ shape (frames a) = shape (frames st1)
+  | None, None => True
+  | _, _ => False
+  end ->
+  res_rel (Rsh sg st1)
+          (match oa with Some st' => ROk st' | None => RStuck k end)
+          (match ob with Some st' => ROk st' | None => RStuck k end).
+Proof. intros sg st1 oa ob k H. destruct oa, ob; simpl; auto; contradiction. Qed.
+
 (* ---------- the main lemma: statements, blocks, statement lists ---------- *)
 Lemma exec_sound :
   (forall s sg sg' st1 st2, ai_stmt ns brs s sg = Some sg' -> Rst sg st1 st2 ->
-      res_rel (Rst sg') (exec_stmt brs ev s st1) (exec_stmt brs ev s st2)) /\
-  (forall b sg sg' pre st1 st2, ai_block ns brs b sg = Some sg' -> Rst sg st1 st2 ->
+      res_rel (Rsh sg' st1) (exec_stmt brs ev s st1) (exec_stmt brs ev s st2)) /\
+  (forall b sg sg' (pre : frame) st1 st2, ai_block ns brs b (map fst pre) sg = Some sg' -> Rst sg st1 st2 ->
       (forall x, is_mem ns x = true -> frame_get x pre = None) ->
-      res_rel (Rst sg') (exec_block brs ev b pre st1) (exec_block brs ev b pre st2)) /\
+      res_rel (Rsh sg' st1) (exec_block brs ev b pre st1) (exec_block brs ev b pre st2)) /\
   (forall l sg sg' st1 st2, ai_stmts ns brs l sg = Some sg' -> Rst sg st1 st2 ->
-      res_rel (Rst sg') (exec_stmts brs ev l st1) (exec_stmts brs ev l st2)).
+      res_rel (Rsh sg' st1) (exec_stmts brs ev l st1) (exec_stmts brs ev l st2)).
 Proof.
   apply sbs_mutind_else.
   - (* SSet *)
@@ -535,8 +775,7 @@ Proof.
     pose proof (lookup_type _ _ _ x H) as T.
     destruct (lookup x st1) as [[t1 w1]|], (lookup x st2) as [[t2 w2]|]; simpl in T; try discriminate; same_or_trivial.
     inversion T; subst t2.
-    pose proof (assign_write sg st1 st2 x (conv t1 match cast with Some ct => conv ct v | None => v end) H) as W.
-    destruct (assign x _ st1), (assign x _ st2); simpl; auto; contradiction.
+    apply Rsh_of_assign. apply assign_write. exact H.
   - (* SPush *)
     intros x cast e sg sg' st1 st2 A H. cbn in A.
     destruct (exp_ok ns e) eqn:E; try discriminate.
@@ -548,16 +787,14 @@ Proof.
       destruct (lookup x st2) as [[t w]|]; same_or_trivial.
       destruct w; same_or_trivial.
       match goal with |- context [assign x ?v st1] =>
-        destruct (assign_member sg st1 st2 x v LSet H M) as [a [b [A1 [A2 A3]]]] end.
+        destruct (assign_member sg st1 st2 x v LSet H M) as [a [b [A1 [A2 [A3 A4]]]]] end.
       { intros; reflexivity. }
-      rewrite A1, A2. exact A3.
+      rewrite A1, A2. split; auto. rewrite A4. reflexivity.
     + inversion A; subst; clear A.
       rewrite (lookup_eq _ _ _ x H (or_introl M)).
       destruct (lookup x st2) as [[t w]|]; same_or_trivial.
       destruct w; same_or_trivial.
-      match goal with |- context [assign x ?v st1] =>
-        pose proof (assign_nonmember sg' st1 st2 x v H M) as W end.
-      destruct (assign x _ st1), (assign x _ st2); simpl; auto; contradiction.
+      apply Rsh_of_assign. apply assign_nonmember; auto.
   - (* SClear *)
     intros x sg sg' st1 st2 A H. cbn in A. cbn.
     destruct (is_mem ns x) eqn:M.
@@ -565,26 +802,24 @@ Proof.
       rewrite (lookup_eq _ _ _ x H (or_intror L)).
       destruct (lookup x st2) as [[t w]|]; same_or_trivial.
       destruct w; same_or_trivial.
-      destruct (assign_member sg st1 st2 x (VVec []) LClean H M) as [a [b [A1 [A2 A3]]]].
-      { intros t0. simpl. eauto. }
-      rewrite A1, A2. exact A3.
+      destruct (assign_member sg st1 st2 x (VVec []) LClean H M) as [a [b [A1 [A2 [A3 A4]]]]].
+      { intros t0 fs. simpl. eauto. }
+      rewrite A1, A2. split; auto. rewrite A4. reflexivity.
     + inversion A; subst; clear A.
       rewrite (lookup_eq _ _ _ x H (or_introl M)).
       destruct (lookup x st2) as [[t w]|]; same_or_trivial.
       destruct w; same_or_trivial.
-      pose proof (assign_nonmember sg' st1 st2 x (VVec []) H M) as W.
-      destruct (assign x _ st1), (assign x _ st2); simpl; auto; contradiction.
+      apply Rsh_of_assign. apply assign_nonmember; auto.
   - (* SFill *)
     intros line sg sg' st1 st2 A H. cbn in A.
     destruct (fill_ok ns brs sg) eqn:F; try discriminate. inversion A; subst; clear A.
-    cbn. rewrite (fill_row_eq _ _ _ H F). destruct H. constructor; simpl; auto. congruence.
+    cbn. rewrite (fill_row_eq _ _ _ H F). split; auto. destruct H. constructor; simpl; auto. congruence.
   - (* SThrow *)
     intros line sg sg' st1 st2 A H. cbn. reflexivity.
   - (* SFetch *)
     intros idiom target ct bank lines sg sg' st1 st2 A H. cbn in A. inversion A; subst; clear A.
     cbn. destruct (assoc_ss (ct, bank) (ev_colls ev)) as [v|]; same_or_trivial.
-    pose proof (assign_write sg st1 st2 target v H) as W.
-    destruct (assign target v st1), (assign target v st2); simpl; auto; contradiction.
+    apply Rsh_of_assign. apply assign_write. exact H.
   - (* SIota *)
     intros v b sg sg' st1 st2 A H. cbn in A.
     destruct (negb (is_mem ns v) && negb (is_mem ns b)) eqn:C; try discriminate.
@@ -593,9 +828,7 @@ Proof.
     cbn. rewrite (lookup_nonmember _ _ _ v H C1), (lookup_nonmember _ _ _ b H C2).
     destruct (lookup v st2) as [[t w]|]; same_or_trivial.
     destruct w; destruct (lookup b st2) as [[t' w']|]; same_or_trivial; destruct w'; same_or_trivial.
-    match goal with |- context [assign v ?x st1] =>
-      pose proof (assign_nonmember sg' st1 st2 v x H C1) as W end.
-    destruct (assign v _ st1), (assign v _ st2); simpl; auto; contradiction.
+    apply Rsh_of_assign. apply assign_nonmember; auto.
   - (* SUser *)
     intros; simpl; reflexivity.
   - (* SLine *)
@@ -609,52 +842,84 @@ Proof.
     destruct (eval ev st2 e) as [c| |]; same_or_trivial.
     destruct c; same_or_trivial.
     apply (Rst_weaken _ _ _ _ L) in H.
-    revert st1 st2 H. induction l as [|v r IHl]; intros st1 st2 H.
-    + exact H.
-    + eapply res_rel_bind.
-      * eapply IHb; eauto. intros y My. simpl. destruct (String.eqb y x) eqn:E2; auto.
-        apply String.eqb_eq in E2. subst. congruence.
-      * intros a b0 K. apply IHl. eapply Rst_weaken; [apply ale_spec; exact B2 | exact K].
+    assert (G : forall l0 a1 a2, Rsh sg' st1 a1 a2 ->
+      res_rel (Rsh sg' st1)
+        ((fix loop (l : list value) (st : state) {struct l} : res state :=
+            match l with
+            | [] => ROk st
+            | v :: r => rdo st' <- exec_block brs ev b [(x, ("auto", v))] st; loop r st'
+            end) l0 a1)
+        ((fix loop (l : list value) (st : state) {struct l} : res state :=
+            match l with
+            | [] => ROk st
+            | v :: r => rdo st' <- exec_block brs ev b [(x, ("auto", v))] st; loop r st'
+            end) l0 a2)).
+    { induction l0 as [|v r IHl]; intros a1 a2 [K1 K2].
+      - split; auto.
+      - eapply res_rel_bind.
+        + eapply (IHb sg' sg2 [(x, ("auto", v))]); eauto.
+          intros y My. simpl. destruct (String.eqb y x) eqn:E2; auto.
+          apply String.eqb_eq in E2. subst. congruence.
+        + intros a b0 [K3 K4]. apply IHl. split.
+          * eapply Rst_weaken; [apply ale_spec; exact B2 | exact K3].
+          * congruence. }
+    apply G. split; auto.
   - (* SIf *)
     intros c b IHb els IHe sg sg' st1 st2 A H. rewrite ai_stmt_if in A. unfold opt_else in IHe.
     destruct (exp_ok ns c) eqn:C; try discriminate.
-    destruct (ai_block ns brs b sg) as [s1|] eqn:A1; try discriminate.
-    rewrite !exec_stmt_if. rewrite (eval_eq _ _ _ c H C).
-    destruct (eval ev st2 c) as [v| |]; same_or_trivial.
-    destruct (truth v) as [t| |]; same_or_trivial.
-    destruct els as [b2|].
-    + destruct (ai_block ns brs b2 sg) as [s2|] eqn:A2; try discriminate. inversion A; subst; clear A.
-      destruct t.
-      * eapply res_rel_mono.
-        -- eapply IHb; eauto.
-        -- intros a b0 K. eapply Rst_weaken; [apply ajoin_l | exact K].
-      * eapply res_rel_mono.
-        -- eapply IHe; eauto.
-        -- intros a b0 K. eapply Rst_weaken; [apply ajoin_r | exact K].
-    + inversion A; subst; clear A.
-      destruct t.
-      * eapply res_rel_mono.
-        -- eapply IHb; eauto.
-        -- intros a b0 K. eapply Rst_weaken; [apply ajoin_l | exact K].
-      * simpl. eapply Rst_weaken; [apply ajoin_r | exact H].
+    destruct (ai_block ns brs b [] sg) as [s1|] eqn:A1; try discriminate.
+    rewrite !exec_stmt_if. rewrite <- (eval_eq _ _ _ c H C).
+    destruct (eval ev st1 c) as [v| |] eqn:EV; same_or_trivial.
+    destruct (truth v) as [t| |] eqn:TV; same_or_trivial.
+    destruct t.
+    + (* then *)
+      assert (exists s2, sg' = ajoin s1 s2) as [s2 ->].
+      { destruct els as [b2|].
+        - destruct (ai_block ns brs b2 [] (cond_false c sg)); try discriminate. inversion A. eauto.
+        - inversion A. eauto. }
+      eapply res_rel_mono.
+      * eapply (IHb sg s1 []); eauto.
+      * intros a b0 [K1 K2]. split; auto. eapply Rst_weaken; [apply ajoin_l | exact K1].
+    + (* else *)
+      pose proof (cond_false_rel _ _ _ c v H C EV TV) as HF.
+      destruct els as [b2|].
+      * destruct (ai_block ns brs b2 [] (cond_false c sg)) as [s2|] eqn:A2; try discriminate.
+        inversion A; subst; clear A.
+        eapply res_rel_mono.
+        -- eapply (IHe (cond_false c sg) s2 []); eauto.
+        -- intros a b0 [K1 K2]. split; auto. eapply Rst_weaken; [apply ajoin_r | exact K1].
+      * inversion A; subst; clear A. simpl. split; auto.
+        eapply Rst_weaken; [apply ajoin_r | exact HF].
   - (* SBlk *)
-    intros b IHb sg sg' st1 st2 A H. cbn in A. cbn. eapply IHb; eauto.
+    intros b IHb sg sg' st1 st2 A H. cbn in A. cbn. eapply (IHb sg sg' []); eauto.
   - (* Blk *)
     intros ds body IH sg sg' pre st1 st2 A H P. rewrite ai_block_blk in A.
-    destruct (forallb (decl_ok ns) ds) eqn:D; try discriminate.
-    rewrite !exec_block_blk. eapply res_rel_bind.
-    + apply run_decls_rel; [exact D | apply push_frame_rel; eauto].
-    + intros a b K. eapply res_rel_bind.
+    destruct (ai_decls ns ds (map fst pre) (aforget_all (map fst pre) sg)) as [sg1|] eqn:D; try discriminate.
+    destruct (ai_stmts ns brs body sg1) as [sg2|] eqn:B; try discriminate.
+    inversion A; subst; clear A.
+    rewrite !exec_block_blk.
+    pose proof (push_frame_rel sg st1 st2 pre H P) as H0.
+    eapply res_rel_bind.
+    + eapply run_decls_rel; eauto; simpl; try discriminate.
+    + intros a b [K1 K2]. eapply res_rel_bind.
       * eapply IH; eauto.
-      * intros a2 b2 K2. simpl. apply pop_frame_rel. exact K2.
+      * intros a2 b2 [K3 K4]. simpl. split.
+        -- apply pop_frame_rel; auto. intros y Hy. unfold top_names in Hy.
+           rewrite K2 in K4. unfold top_names in K4. simpl in K4.
+           unfold shape in K4. destruct (frames a2) as [|f0 r0]; simpl in *; try contradiction.
+           inversion K4. congruence.
+        -- unfold pop_frame. simpl. rewrite K2 in K4. unfold shape in *.
+           destruct (frames a2) as [|f0 r0]; simpl in *; try discriminate. inversion K4. reflexivity.
   - (* SNil *)
-    intros sg sg' st1 st2 A H. cbn in A. inversion A; subst. exact H.
+    intros sg sg' st1 st2 A H. cbn in A. inversion A; subst. split; auto.
   - (* SCons *)
     intros s IHs r IHr sg sg' st1 st2 A H. rewrite ai_stmts_cons in A.
     destruct (ai_stmt ns brs s sg) as [sg1|] eqn:A1; try discriminate.
     rewrite !exec_stmts_cons. eapply res_rel_bind.
     + eapply IHs; eauto.
-    + intros a b K. eapply IHr; eauto.
+    + intros a b [K1 K2]. eapply res_rel_mono.
+      * eapply IHr; eauto.
+      * intros a2 b2 [K3 K4]. split; auto. congruence.
 Qed.
 End Sound.
 
@@ -706,17 +971,17 @@ Lemma initial_rel : forall ms (f1 f2 : frame),
   fsig f2 = map (fun m => (m_name m, m_type m)) ms ->
   Forall (fun b => is_vector_type (fst (snd b)) = true -> snd (snd b) = VVec []) f1 ->
   Forall (fun b => is_vector_type (fst (snd b)) = true -> snd (snd b) = VVec []) f2 ->
-  forall x,
+  forall x fs,
   vrel (aget x (map (fun m => (m_name m, if is_vector_type (m_type m) then LClean else LAny)) ms))
-       (frame_get x f1) (frame_get x f2).
+       fs (frame_get x f1) (frame_get x f2).
 Proof.
-  induction ms as [|m r IH]; intros f1 f2 S1 S2 V1 V2 x; simpl.
-  - exact I.
+  induction ms as [|m r IH]; intros f1 f2 S1 S2 V1 V2 x fs; simpl.
+  - apply vrel_any.
   - destruct f1 as [|[y1 [t1 v1]] r1]; simpl in S1; try discriminate.
     destruct f2 as [|[y2 [t2 v2]] r2]; simpl in S2; try discriminate.
     inversion S1; subst. inversion S2; subst. inversion V1; subst. inversion V2; subst. simpl in *.
     destruct (String.eqb x (m_name m)) eqn:E.
-    + destruct (is_vector_type (m_type m)) eqn:T; simpl; auto.
+    + destruct (is_vector_type (m_type m)) eqn:T; simpl; [|apply vrel_any].
       rewrite H1, H5; auto. eauto.
     + apply IH; auto.
 Qed.
@@ -752,12 +1017,13 @@ Proof.
     - intros x _. reflexivity.
     - congruence.
     - rewrite <- fsig_dom, S1. apply member_sig_dom.
-    - apply initial_rel; auto. }
+    - intros x. apply initial_rel; auto. }
   pose proof (proj1 (proj2 (exec_sound (member_names p) (member_sig p) (p_branches p) ev)) (p_body p) _ _ [] st1 st2 A R0
                 (fun x _ => eq_refl)) as K.
   unfold run_event. fold st1. fold st2.
   destruct (exec_block (p_branches p) ev (p_body p) [] st1) as [a| |],
            (exec_block (p_branches p) ev (p_body p) [] st2) as [b| |]; simpl in K; try contradiction; simpl; auto.
+  destruct K as [K _].
   pose proof (R_rows _ _ _ _ _ K) as Kr. pose proof (R_msig _ _ _ _ _ K) as Ka.
   pose proof (R_sig _ _ _ _ _ K) as Kb. pose proof (R_mem _ _ _ _ _ K) as Km.
   split; [exact Kr|]. split.
@@ -1005,3 +1271,65 @@ Lemma ex_good_permuted :
           [[VVec [VDbl (qz 30); VDbl (qz 5)]; VDbl (qz 35)]];
           [[VVec [VDbl (qz 30); VDbl (qz 5)]; VDbl (qz 35)]] ].
 Proof. vm_compute. reflexivity. Qed.
+
+(* the First lowering, as emitted for  ds.Select(lambda e: e.Jets("b1").First().pt())  : the column is
+   assigned under a block-local flag and a throw removes the case in which it was not - accepted thanks to
+   the guarded level *)
+Definition ex_first : program :=
+  {| p_members := [ {| m_type := "double"; m_name := "_col13" |} ];
+     p_tree := "atlas_xaod_tree";
+     p_branches := [ {| br_name := "col1"; br_var := "_col13" |} ];
+     p_book_extra := [];
+     p_body :=
+       Blk [ {| d_type := jets_t; d_name := "jets0"; d_init := None |};
+             {| d_type := "bool"; d_name := "is_first2"; d_init := Some (CBool true) |} ]
+           (stmts_of_list
+              [ fetch_jets "jets0";
+                SFor "i_obj1" (CDeref (CVar "jets0"))
+                     (Blk [] (stmts_of_list
+                        [ SIf (CVar "is_first2")
+                              (Blk [] (stmts_of_list [ SSet "is_first2" None (CBool false);
+                                                       SSet "_col13" None (pt_of "i_obj1") ]))
+                              None ]));
+                SIf (CVar "is_first2") (Blk [] (stmts_of_list [ SThrow "throw std::runtime_error(""First() called on an empty sequence"");" ])) None;
+                SFill fill_line ]) |}.
+
+Lemma ex_first_accepted : event_local ex_first = true.
+Proof. vm_compute. reflexivity. Qed.
+
+Lemma ex_first_rows :
+  run_job ex_first [ev_two; ev_two] = JDone [ [[VDbl (qz 30)]]; [[VDbl (qz 30)]] ] /\
+  run_job ex_first [ev_two; ev_none; ev_two] = JAbort [ [[VDbl (qz 30)]] ] 1 FThrow.
+Proof. split; vm_compute; reflexivity. Qed.
+
+(* DESIGN section 8 row 10, as emitted for  ds.Select(lambda e: e.Jets("b1").SelectMany(lambda j: j.vals()).Sum())  :
+   the accumulator is declared, and the column assigned, inside the loop over the jets; Fill is outside *)
+Definition ex_sum_after_selectmany : program :=
+  {| p_members := [ {| m_type := "double"; m_name := "_col14" |} ];
+     p_tree := "atlas_xaod_tree";
+     p_branches := [ {| br_name := "col1"; br_var := "_col14" |} ];
+     p_book_extra := [];
+     p_body :=
+       Blk [ {| d_type := jets_t; d_name := "jets0"; d_init := None |} ]
+           (stmts_of_list
+              [ fetch_jets "jets0";
+                SFor "i_obj1" (CDeref (CVar "jets0"))
+                     (Blk [ {| d_type := "double"; d_name := "aggResult3"; d_init := Some (CInt 0) |} ]
+                          (stmts_of_list
+                             [ SFor "i_obj2" (CMeth (CVar "i_obj1") true "vals" CNil)
+                                    (Blk [] (stmts_of_list
+                                       [ SSet "aggResult3" None (CBin "+" (CVar "aggResult3") (CVar "i_obj2")) ]));
+                               SSet "_col14" None (CVar "aggResult3") ]));
+                SFill fill_line ]) |}.
+
+Definition ev_vals : event :=
+  {| ev_colls := [ ((jets_t, "b1"), VVec [VObj 0]) ];
+     ev_meths := [ ((0, "vals"), VVec [VDbl (qz 2); VDbl (qz 5)]) ] |}.
+
+Lemma ex_sum_after_selectmany_rejected : event_local ex_sum_after_selectmany = false.
+Proof. vm_compute. reflexivity. Qed.
+
+Lemma ex_sum_after_selectmany_witness :
+  run_job ex_sum_after_selectmany [ev_vals; ev_none] = JDone [ [[VDbl (qz 7)]]; [[VDbl (qz 7)]] ] /\
+  run_job ex_sum_after_selectmany [ev_none] = JDone [ [[VUninit]] ].
+Proof. split; vm_compute; reflexivity. Qed.
